@@ -93,10 +93,13 @@ pub fn panic_site(msg: &str) -> String {
     match msg.rfind(" @ ") {
         Some(i) => {
             let loc = &msg[i + 3..];
-            match loc.find("/repo/") {
-                Some(j) => loc[j + 6..].to_string(),
-                None => loc.to_string(),
+            // keep the path relative to the repository root, wherever the tree is checked out
+            for marker in ["chess_base/src/", "chess/src/", "chess/build.rs"] {
+                if let Some(j) = loc.find(marker) {
+                    return loc[j..].to_string();
+                }
             }
+            loc.to_string()
         }
         None => msg.to_string(),
     }
@@ -174,6 +177,13 @@ impl Ctx {
         }
         if self.samples.len() < MAX_SAMPLES && (self.cases <= 3 || self.rng_sample()) {
             self.samples.push(desc.to_string());
+        }
+    }
+
+    /// An extra, human-readable sample (operation trace, decoded text) for the evidence file.
+    pub fn sample_note(&mut self, text: &str) {
+        if self.samples.len() < MAX_SAMPLES + 4 {
+            self.samples.push(text.to_string());
         }
     }
 
